@@ -460,3 +460,503 @@ Proof.
 Qed.
 
 End GenComplete.
+
+(* ------------------------------------------------------------------ substitution algebra *)
+Lemma app_comp f g t : app f (app g t) = app (fun v => app f (g v)) t.
+Proof. induction t; cbn; congruence. Qed.
+Lemma app_id t : app TVar t = t.
+Proof. induction t; cbn; congruence. Qed.
+Lemma app_ext_vars f g t : (forall x, occurs x t = true -> f x = g x) -> app f t = app g t.
+Proof. induction t as [y|a|l IHl r IHr]; cbn; intros H; auto.
+  - apply H. apply Nat.eqb_refl.
+  - f_equal; [apply IHl|apply IHr]; intros x O; apply H; rewrite O; auto using orb_true_r. Qed.
+Lemma sub1_app x u t : sub1 x u t = app (fun v => if Nat.eqb x v then u else TVar v) t.
+Proof. induction t; cbn; congruence. Qed.
+Lemma app_seq_app sg : forall t, app_seq sg t = app (fun v => app_seq sg (TVar v)) t.
+Proof. induction sg as [|(x,u) sg IH]; intros t; cbn [app_seq].
+  - symmetry; apply app_id.
+  - rewrite IH, sub1_app, app_comp. apply app_ext_vars. intros v _. cbn [sub1].
+    destruct (Nat.eqb x v); [symmetry; apply IH|cbn; reflexivity]. Qed.
+Lemma below0_app th t : below 0 t -> app th t = t.
+Proof. induction t; cbn; intros B; try lia; auto. destruct B; f_equal; auto. Qed.
+Lemma below_occurs n t x : below n t -> occurs x t = true -> x < n.
+Proof. induction t as [y|a|l IHl r IHr]; cbn; intros B O; try discriminate.
+  - apply Nat.eqb_eq in O; subst; exact B.
+  - destruct B. apply orb_true_iff in O. destruct O; auto. Qed.
+
+(* ------------------------------------------------------------------ first-occurrence numbering *)
+Lemma existsb_eqb_In x l : existsb (Nat.eqb x) l = true <-> In x l.
+Proof. rewrite existsb_exists. split.
+  - intros (y & I & E). apply Nat.eqb_eq in E; subst; exact I.
+  - intros I; exists x; split; [exact I|apply Nat.eqb_refl]. Qed.
+
+Lemma fo_vars_in t : forall acc x, In x (fo_vars t acc) <-> In x acc \/ occurs x t = true.
+Proof. induction t as [y|a|l IHl r IHr]; intros acc x; cbn.
+  - destruct (existsb (Nat.eqb y) acc) eqn:E.
+    + apply existsb_eqb_In in E. split; [auto|]. intros [I|O]; [exact I|]. apply Nat.eqb_eq in O; subst; exact E.
+    + rewrite in_app_iff. cbn. rewrite Nat.eqb_eq. intuition.
+  - intuition discriminate.
+  - rewrite IHr, IHl, orb_true_iff. tauto. Qed.
+
+Lemma NoDup_snoc (l:list nat) x : NoDup l -> ~ In x l -> NoDup (l ++ [x]).
+Proof. induction l as [|a l IH]; cbn; intros N I.
+  - constructor; [intros []|constructor].
+  - inversion N; subst. constructor.
+    + rewrite in_app_iff. cbn. intuition.
+    + apply IH; auto. Qed.
+
+Lemma fo_vars_nodup t : forall acc, NoDup acc -> NoDup (fo_vars t acc).
+Proof. induction t as [y|a|l IHl r IHr]; intros acc N; cbn; auto.
+  destruct (existsb (Nat.eqb y) acc) eqn:E; auto.
+  apply NoDup_snoc; auto. intros I. apply existsb_eqb_In in I. congruence. Qed.
+
+Lemma fo_vars_list_in ts : forall acc x,
+  In x (fo_vars_list ts acc) <-> In x acc \/ exists u, In u ts /\ occurs x u = true.
+Proof. induction ts as [|t ts IH]; intros acc x; cbn.
+  - split; [auto|]. intros [I|(u & [] & _)]; exact I.
+  - rewrite IH, fo_vars_in. split.
+    + intros [[I|O]|(u & I & O)]; eauto.
+    + intros [I|(u & [<-|I] & O)]; eauto. Qed.
+
+Lemma fo_vars_list_nodup ts : forall acc, NoDup acc -> NoDup (fo_vars_list ts acc).
+Proof. induction ts; intros acc N; cbn; auto using fo_vars_nodup. Qed.
+
+Definition inj_on (S:nat->Prop) (f:nat->nat) : Prop := forall x y, S x -> S y -> f x = f y -> x = y.
+
+Lemma existsb_map_inj S f y acc : inj_on S f -> S y -> (forall x, In x acc -> S x) ->
+  existsb (Nat.eqb (f y)) (map f acc) = existsb (Nat.eqb y) acc.
+Proof. intros J Sy Sa.
+  destruct (existsb (Nat.eqb y) acc) eqn:E.
+  - apply existsb_eqb_In. apply existsb_eqb_In in E. apply in_map; exact E.
+  - destruct (existsb (Nat.eqb (f y)) (map f acc)) eqn:E2; auto.
+    apply existsb_eqb_In in E2. apply in_map_iff in E2. destruct E2 as (z & Ez & Iz).
+    apply J in Ez; auto. subst z. apply existsb_eqb_In in Iz. congruence. Qed.
+
+Lemma fo_vars_map S f t : inj_on S f -> forall acc,
+  (forall x, In x acc -> S x) -> (forall x, occurs x t = true -> S x) ->
+  fo_vars (app (fun v => TVar (f v)) t) (map f acc) = map f (fo_vars t acc).
+Proof. intros J. induction t as [y|a|l IHl r IHr]; intros acc Sa St; cbn [app fo_vars]; auto.
+  - assert (Sy : S y) by (apply St; cbn; apply Nat.eqb_refl).
+    rewrite (existsb_map_inj S f y acc J Sy Sa).
+    destruct (existsb (Nat.eqb y) acc); auto. rewrite map_app. reflexivity.
+  - rewrite IHl; [rewrite IHr; auto|auto|].
+    + intros x I. apply fo_vars_in in I. destruct I as [I|O]; auto. apply St; cbn; rewrite O; auto.
+    + intros x O. apply St; cbn; rewrite O; auto using orb_true_r.
+    + intros x O. apply St; cbn; rewrite O; auto. Qed.
+
+Lemma fo_vars_list_map S f ts : inj_on S f -> forall acc,
+  (forall x, In x acc -> S x) -> (forall u x, In u ts -> occurs x u = true -> S x) ->
+  fo_vars_list (map (app (fun v => TVar (f v))) ts) (map f acc) = map f (fo_vars_list ts acc).
+Proof. intros J. induction ts as [|t ts IH]; intros acc Sa St; cbn [map fo_vars_list]; auto.
+  assert (Stt : forall x, occurs x t = true -> S x) by (intros x O; apply (St t); [left; reflexivity|exact O]).
+  rewrite (fo_vars_map S f t J acc Sa Stt). apply IH.
+  - intros x I. apply fo_vars_in in I. destruct I as [I|O]; auto.
+  - intros u x I O. apply (St u); [right; exact I|exact O]. Qed.
+
+Lemma index_of_nth x l d : In x l -> nth (index_of x l) l d = x.
+Proof. induction l as [|y l IH]; cbn; intros I; [contradiction|].
+  destruct (Nat.eqb x y) eqn:E; [apply Nat.eqb_eq in E; auto|].
+  destruct I as [->|I]; [rewrite Nat.eqb_refl in E; discriminate|auto]. Qed.
+
+Lemma index_of_inj l : inj_on (fun x => In x l) (fun x => index_of x l).
+Proof. intros x y Ix Iy E. rewrite <- (index_of_nth x l 0 Ix), <- (index_of_nth y l 0 Iy), E. reflexivity. Qed.
+
+Lemma index_of_seq l : NoDup l -> map (fun x => index_of x l) l = seq 0 (length l).
+Proof. induction l as [|a l IH]; intros N; cbn [map index_of length seq]; auto. inversion N; subst.
+  rewrite Nat.eqb_refl. f_equal. rewrite <- seq_shift, <- IH by assumption. rewrite map_map.
+  apply map_ext_in. intros x I. destruct (Nat.eqb x a) eqn:E; auto. apply Nat.eqb_eq in E; subst; contradiction. Qed.
+
+Lemma rename_as_app vs t : rename vs t = app (fun v => TVar (index_of v vs)) t.
+Proof. reflexivity. Qed.
+
+(** the renaming is inverted by [fun j => f (nth j vs 0)] on types whose variables are in [vs] *)
+Lemma rename_inv vs f t : (forall x, occurs x t = true -> In x vs) ->
+  app (fun j => f (nth j vs 0)) (rename vs t) = app f t.
+Proof. intros H. unfold rename. rewrite app_comp. apply app_ext_vars. intros x O. cbn.
+  rewrite index_of_nth; auto. Qed.
+
+(** canonical numbering of a renamed list of types *)
+Lemma fo_vars_list_rename ts : let vs := fo_vars_list ts [] in
+  fo_vars_list (map (rename vs) ts) [] = seq 0 (length vs).
+Proof. intros vs.
+  assert (N : NoDup vs) by (apply fo_vars_list_nodup; constructor).
+  change (@nil nat) with (map (fun x => index_of x vs) []) at 1.
+  unfold rename. rewrite (fo_vars_list_map (fun x => In x vs) _ ts (index_of_inj vs)).
+  - fold vs. apply index_of_seq; exact N.
+  - intros x [].
+  - intros u x I O. apply fo_vars_list_in. right; eauto. Qed.
+
+(* ------------------------------------------------------------------ infer_fun *)
+Lemma menv_combine th xs : forall ts, menv th (combine xs ts) = combine xs (map (app th) ts).
+Proof. induction xs as [|x xs IH]; intros [|t ts]; cbn [combine map menv]; auto.
+  f_equal. apply IH. Qed.
+
+Lemma env_below_combine n xs : forall ts, Forall (below n) ts -> env_below n (combine xs ts).
+Proof. induction xs as [|x xs IH]; intros [|t ts] F; cbn [combine].
+  - intros ? ? [].
+  - intros ? ? [].
+  - intros ? ? [].
+  - inversion F; subst. apply env_below_cons; auto. Qed.
+
+Lemma ann_eqs_in ps : forall i0 s t,
+  In (s,t) (ann_eqs ps i0) <-> exists j x, nth_error ps j = Some (x, Some t) /\ s = TVar (i0 + j).
+Proof. induction ps as [|(y,[a|]) ps IH]; intros i0 s t; cbn [ann_eqs].
+  - split; [intros []|intros ([|j] & x & E & _); discriminate].
+  - cbn [In]. rewrite IH. split.
+    + intros [E|(j & x & E & ->)].
+      * injection E as <- <-. exists 0, y. split; [reflexivity|f_equal; lia].
+      * exists (S j), x. split; [exact E|f_equal; lia].
+    + intros ([|j] & x & E & ->); cbn in E.
+      * injection E as <- <-. left. do 2 f_equal. lia.
+      * right. exists j, x. split; [exact E|f_equal; lia].
+  - rewrite IH. split.
+    + intros (j & x & E & ->). exists (S j), x. split; [exact E|f_equal; lia].
+    + intros ([|j] & x & E & ->); cbn in E; [discriminate|]. exists j, x. split; [exact E|f_equal; lia]. Qed.
+
+Definition fun_ok (fd:fundef) : Prop :=
+  forall i x a, nth_error (f_params fd) i = Some (x, Some a) -> below 0 a.
+
+Lemma unifies_ann th ps : (forall i x a, nth_error ps i = Some (x, Some a) -> below 0 a) ->
+  (unifies th (ann_eqs ps 0) <-> forall i x a, nth_error ps i = Some (x, Some a) -> th i = a).
+Proof. intros OK. split.
+  - intros U i x a E. specialize (U (TVar i) a). rewrite (below0_app th a (OK _ _ _ E)) in U. apply U.
+    apply ann_eqs_in. exists i, x. auto.
+  - intros H s t I. apply ann_eqs_in in I. destruct I as (j & x & E & ->). cbn.
+    rewrite (below0_app th t (OK _ _ _ E)). eauto. Qed.
+
+Lemma map_nth_seq (l:list ty) d : map (fun v => nth v l d) (seq 0 (length l)) = l.
+Proof. induction l as [|a l IH]; cbn [length seq map]; auto. f_equal.
+  rewrite <- seq_shift, map_map. exact IH. Qed.
+
+Section InferFun.
+Variable D : decls.
+Hypothesis DOK : decls_ok D.
+
+Definition G0 (fd:fundef) : env :=
+  combine (param_names fd) (map TVar (seq 0 (length (f_params fd)))).
+
+Lemma G0_below fd : env_below (length (f_params fd)) (G0 fd).
+Proof. apply env_below_combine. apply below_seqvars. lia. Qed.
+
+Lemma param_names_length fd : length (param_names fd) = length (f_params fd).
+Proof. apply map_length. Qed.
+
+(** every instance of the inferred scheme is derivable (in particular the scheme itself, rho = TVar) *)
+Theorem infer_sound : forall fuel fd k ptys rty,
+  fun_ok fd -> infer_fun D fuel fd = Inferred k ptys rty ->
+  forall rho, has_fun D fd (map (app rho) ptys) (app rho rty).
+Proof.
+  intros fuel fd k ptys rty OK H rho. unfold infer_fun in H.
+  destruct (gen D _ (f_body fd) _) as [[[t es] n']|] eqn:GE; [|discriminate].
+  destruct (unify fuel _) as [sg| |] eqn:UE; try discriminate.
+  set (np := length (f_params fd)) in *.
+  set (ps := map (fun i => app_seq sg (TVar i)) (seq 0 np)) in *.
+  set (vs := fo_vars_list (ps ++ [app_seq sg t]) []) in *.
+  injection H as <- <- <-.
+  set (th := fun v => app rho (rename vs (app_seq sg (TVar v)))).
+  assert (KEY : forall u, app th u = app rho (rename vs (app_seq sg u))).
+  { intros u. rewrite (app_seq_app sg u). unfold rename. rewrite !app_comp. apply app_ext_vars.
+    intros x _. unfold th, rename. rewrite app_comp. reflexivity. }
+  assert (U : unifies th (ann_eqs (f_params fd) 0 ++ es)).
+  { intros a b I. rewrite !KEY. f_equal. f_equal. apply (unify_sound _ _ _ UE); exact I. }
+  apply unifies_app in U. destruct U as (Ua & Ue).
+  assert (PT : map (app rho) (map (rename vs) ps) = map th (seq 0 np)).
+  { unfold ps. rewrite !map_map. reflexivity. }
+  split; [|split].
+  - rewrite PT, map_length, seq_length. reflexivity.
+  - intros i x a E. rewrite PT.
+    assert (Li : i < np) by (apply nth_error_Some; unfold np; rewrite E; discriminate).
+    erewrite map_nth_error; [|apply nth_error_seq; exact Li]. cbn. f_equal.
+    apply (proj1 (unifies_ann th _ OK) Ua i x a E).
+  - rewrite PT, <- KEY. pose proof (gen_sound D _ _ _ _ _ _ GE th Ue) as HS.
+    rewrite menv_combine, map_map in HS. exact HS.
+Qed.
+
+(** the inferred scheme is principal: every derivable type of the function is an instance of it *)
+Theorem infer_principal : forall fuel fd k ptys rty,
+  fun_ok fd -> infer_fun D fuel fd = Inferred k ptys rty ->
+  forall ptys' rty', has_fun D fd ptys' rty' ->
+  exists rho, ptys' = map (app rho) ptys /\ rty' = app rho rty.
+Proof.
+  intros fuel fd k ptys rty OK H ptys' rty' (LEN & ANN & HAS). unfold infer_fun in H.
+  set (np := length (f_params fd)) in *.
+  set (th := fun v => nth v ptys' (TAtom 0)).
+  assert (MT : map th (seq 0 np) = ptys').
+  { rewrite <- LEN. apply map_nth_seq. }
+  assert (HAS0 : has D (menv th (G0 fd)) (f_body fd) rty').
+  { unfold G0. rewrite menv_combine, map_map. fold np.
+    replace (map (fun x => app th (TVar x)) (seq 0 np)) with ptys' by (symmetry; exact MT). exact HAS. }
+  destruct (gen_complete D DOK _ _ np th rty' HAS0 (G0_below fd)) as (t & es & n' & th' & GE & Ln & AG & UE & ET & BT & BE).
+  unfold G0 in GE. fold np in GE. rewrite GE in H.
+  assert (UA : unifies th' (ann_eqs (f_params fd) 0)).
+  { apply (unifies_ann th' _ OK). intros i x a E.
+    assert (Li : i < np) by (apply nth_error_Some; unfold np; rewrite E; discriminate).
+    rewrite AG by exact Li. unfold th. apply nth_error_nth. apply ANN with (x := x). exact E. }
+  destruct (unify fuel _) as [sg| |] eqn:UN; try discriminate.
+  set (ps := map (fun i => app_seq sg (TVar i)) (seq 0 np)) in *.
+  set (vs := fo_vars_list (ps ++ [app_seq sg t]) []) in *.
+  injection H as <- <- <-.
+  assert (UALL : unifies th' (ann_eqs (f_params fd) 0 ++ es)) by (apply unifies_app; auto).
+  pose proof (unify_mgu _ _ _ UN th' UALL) as MGU.
+  exists (fun j => th' (nth j vs 0)).
+  assert (INV : forall u, In u (ps ++ [app_seq sg t]) ->
+                app (fun j => th' (nth j vs 0)) (rename vs u) = app th' u).
+  { intros u I. apply rename_inv. intros x O. apply fo_vars_list_in. right; eauto. }
+  split.
+  - rewrite <- MT. unfold ps. rewrite !map_map. apply map_ext_in. intros i Ii. apply in_seq in Ii.
+    rewrite INV.
+    + rewrite MGU. cbn. rewrite AG by lia. reflexivity.
+    + apply in_or_app; left. unfold ps. apply in_map_iff. exists i. split; [reflexivity|apply in_seq; lia].
+  - rewrite INV; [rewrite MGU; auto|]. apply in_or_app; right; left; reflexivity.
+Qed.
+
+(** a typable function is never reported ill-typed, and some fuel always suffices *)
+Theorem infer_complete : forall fuel fd ptys' rty',
+  fun_ok fd -> has_fun D fd ptys' rty' -> infer_fun D fuel fd <> IllTyped.
+Proof.
+  intros fuel fd ptys' rty' OK (LEN & ANN & HAS) H. unfold infer_fun in H.
+  set (np := length (f_params fd)) in *.
+  set (th := fun v => nth v ptys' (TAtom 0)).
+  assert (MT : map th (seq 0 np) = ptys').
+  { rewrite <- LEN. apply map_nth_seq. }
+  assert (HAS0 : has D (menv th (G0 fd)) (f_body fd) rty').
+  { unfold G0. rewrite menv_combine, map_map. fold np.
+    replace (map (fun x => app th (TVar x)) (seq 0 np)) with ptys' by (symmetry; exact MT). exact HAS. }
+  destruct (gen_complete D DOK _ _ np th rty' HAS0 (G0_below fd)) as (t & es & n' & th' & GE & Ln & AG & UE & ET & BT & BE).
+  unfold G0 in GE. fold np in GE. rewrite GE in H.
+  assert (UA : unifies th' (ann_eqs (f_params fd) 0)).
+  { apply (unifies_ann th' _ OK). intros i x a E.
+    assert (Li : i < np) by (apply nth_error_Some; unfold np; rewrite E; discriminate).
+    rewrite AG by exact Li. unfold th. apply nth_error_nth. apply ANN with (x := x). exact E. }
+  destruct (unify fuel _) as [sg| |] eqn:UN; try discriminate.
+  apply (unify_complete _ _ UN th'). apply unifies_app; auto.
+Qed.
+
+Theorem infer_fuel_sufficient : forall fd, exists n, forall m, n <= m -> infer_fun D m fd <> OutOfFuel.
+Proof.
+  intros fd. unfold infer_fun.
+  destruct (gen D _ (f_body fd) _) as [[[t es] n']|]; [|exists 0; intros; discriminate].
+  destruct (unify_fuel_sufficient (ann_eqs (f_params fd) 0 ++ es)) as (n & Hn).
+  exists n. intros m L. specialize (Hn m L). destruct (unify m _); try discriminate. congruence.
+Qed.
+
+(** type parameters are numbered 0..k-1 in order of first occurrence in the parameter list, then the result *)
+Theorem numbering_canonical : forall fuel fd k ptys rty,
+  infer_fun D fuel fd = Inferred k ptys rty -> fo_vars_list (ptys ++ [rty]) [] = seq 0 k.
+Proof.
+  intros fuel fd k ptys rty H. unfold infer_fun in H.
+  destruct (gen D _ (f_body fd) _) as [[[t es] n']|]; [|discriminate].
+  destruct (unify fuel _) as [sg| |]; try discriminate.
+  set (ps := map (fun i => app_seq sg (TVar i)) (seq 0 (length (f_params fd)))) in *.
+  injection H as <- <- <-.
+  change [rename (fo_vars_list (ps ++ [app_seq sg t]) []) (app_seq sg t)]
+    with (map (rename (fo_vars_list (ps ++ [app_seq sg t]) [])) [app_seq sg t]).
+  rewrite <- map_app. apply fo_vars_list_rename.
+Qed.
+
+End InferFun.
+
+(* ------------------------------------------------------------------ uniqueness of the canonical principal scheme *)
+Lemma map_fix_in {A} (f:A->A) l : map f l = l -> forall u, In u l -> f u = u.
+Proof. induction l as [|a l IH]; cbn; intros E u I; [contradiction|]. injection E as E1 E2.
+  destruct I as [<-|I]; auto. Qed.
+
+Lemma app_fix_var f u : app f u = u -> forall x, occurs x u = true -> f x = TVar x.
+Proof. induction u as [y|a|l IHl r IHr]; cbn; intros E x O; try discriminate.
+  - apply Nat.eqb_eq in O; subst; exact E.
+  - injection E as El Er. apply orb_true_iff in O. destruct O; auto. Qed.
+
+Lemma mutual_instance_canonical ts ts' k k' r1 r2 :
+  ts = map (app r1) ts' -> ts' = map (app r2) ts ->
+  fo_vars_list ts [] = seq 0 k -> fo_vars_list ts' [] = seq 0 k' -> ts = ts'.
+Proof.
+  intros E1 E2 C C'.
+  set (S := fun x => exists u, In u ts /\ occurs x u = true).
+  set (g := fun x => match r2 x with TVar y => y | _ => 0 end).
+  assert (FIX : forall u, In u ts -> app (fun v => app r1 (r2 v)) u = u).
+  { intros u I. rewrite <- app_comp. apply (map_fix_in (fun u => app r1 (app r2 u)) ts); auto.
+    rewrite <- map_map, <- E2, <- E1. reflexivity. }
+  assert (REN : forall x, S x -> r2 x = TVar (g x) /\ r1 (g x) = TVar x).
+  { intros x (u & I & O). pose proof (app_fix_var _ u (FIX u I) x O) as F. cbn in F.
+    unfold g. destruct (r2 x) as [y|a|l r]; cbn in F; try discriminate. auto. }
+  assert (INJ : inj_on S g).
+  { intros x y Sx Sy E. destruct (REN x Sx) as (_ & A), (REN y Sy) as (_ & B). rewrite E in A. congruence. }
+  assert (E2' : ts' = map (app (fun v => TVar (g v))) ts).
+  { rewrite E2. apply map_ext_in. intros u I. apply app_ext_vars. intros x O. apply REN. exists u; auto. }
+  assert (FO : fo_vars_list ts' [] = map g (fo_vars_list ts [])).
+  { rewrite E2'. change (@nil nat) with (map g []) at 1. apply (fo_vars_list_map S g ts INJ).
+    - intros x [].
+    - intros u x I O. exists u; auto. }
+  rewrite C, C' in FO.
+  assert (K : k' = k) by (apply (f_equal (@length nat)) in FO; rewrite map_length, !seq_length in FO; exact FO).
+  subst k'.
+  assert (ID : forall i, i < k -> g i = i).
+  { intros i L. apply (f_equal (fun l => nth i l 0)) in FO.
+    rewrite seq_nth in FO by exact L. cbn in FO.
+    rewrite (nth_indep _ 0 (g 0)), map_nth, seq_nth in FO by (try rewrite map_length, seq_length; exact L).
+    cbn in FO. auto. }
+  rewrite E2. symmetry. rewrite <- (map_id ts) at 2. apply map_ext_in. intros u I.
+  rewrite <- (app_id u) at 2. apply app_ext_vars. intros x O.
+  assert (Sx : S x) by (exists u; auto). destruct (REN x Sx) as (R & _). rewrite R. f_equal. apply ID.
+  assert (Ix : In x (fo_vars_list ts [])) by (apply fo_vars_list_in; right; exists u; auto).
+  rewrite C in Ix. apply in_seq in Ix. lia.
+Qed.
+
+(* ------------------------------------------------------------------ annotation erasure *)
+Lemma set_ann_names ps : forall i a, map fst (set_ann ps i a) = map fst ps.
+Proof. induction ps as [|(x,o) ps IH]; intros [|i] a; cbn; auto. f_equal; apply IH. Qed.
+Lemma set_ann_length ps : forall i a, length (set_ann ps i a) = length ps.
+Proof. induction ps as [|(x,o) ps IH]; intros [|i] a; cbn; auto. Qed.
+Lemma set_ann_same ps : forall i a x o, nth_error ps i = Some (x, o) -> nth_error (set_ann ps i a) i = Some (x, Some a).
+Proof. induction ps as [|(y,o') ps IH]; intros [|i] a x o E; cbn in *; try discriminate.
+  - injection E as -> _. reflexivity.
+  - eapply IH; eauto. Qed.
+Lemma set_ann_other ps : forall i a j, j <> i -> nth_error (set_ann ps i a) j = nth_error ps j.
+Proof. induction ps as [|(y,o') ps IH]; intros [|i] a [|j] N; cbn; auto; try congruence. Qed.
+
+Section Erasure.
+Variable D : decls.
+Hypothesis DOK : decls_ok D.
+
+Lemma has_fun_erase fd i x a Q q :
+  nth_error (f_params fd) i = Some (x, None) ->
+  has_fun D (annotate fd i a) Q q -> has_fun D fd Q q.
+Proof.
+  intros E (L & A & H). unfold annotate, param_names in *. cbn [f_params f_body] in *.
+  rewrite set_ann_length in L. rewrite set_ann_names in H. split; [exact L|split; [|exact H]].
+  intros j y b Ej. destruct (Nat.eq_dec j i) as [->|N]; [congruence|].
+  apply (A j y b). rewrite set_ann_other by exact N. exact Ej.
+Qed.
+
+Lemma has_fun_annotate fd i x a Q q :
+  nth_error (f_params fd) i = Some (x, None) -> nth_error Q i = Some a ->
+  has_fun D fd Q q -> has_fun D (annotate fd i a) Q q.
+Proof.
+  intros E EQ (L & A & H). unfold has_fun, annotate, param_names in *. cbn [f_params f_body] in *.
+  split; [rewrite set_ann_length; exact L|split; [|rewrite set_ann_names; exact H]].
+  intros j y b Ej. destruct (Nat.eq_dec j i) as [->|N].
+  - rewrite (set_ann_same _ _ _ _ _ E) in Ej. injection Ej as _ <-. exact EQ.
+  - rewrite set_ann_other in Ej by exact N. eauto.
+Qed.
+
+Lemma fun_ok_annotate fd i x a :
+  nth_error (f_params fd) i = Some (x, None) -> below 0 a -> fun_ok fd -> fun_ok (annotate fd i a).
+Proof.
+  intros E Ba OK j y b Ej. unfold annotate in Ej; cbn [f_params] in Ej.
+  destruct (Nat.eq_dec j i) as [->|N].
+  - rewrite (set_ann_same _ _ _ _ _ E) in Ej. injection Ej as _ <-. exact Ba.
+  - rewrite set_ann_other in Ej by exact N. eauto.
+Qed.
+
+(** If the function without the annotation already gets the ground type [a] for parameter [i],
+    then adding the annotation [x : a] does not change the inferred scheme. *)
+Theorem annotation_erasure : forall fd i x a fuel fuel' k P r,
+  fun_ok fd -> below 0 a ->
+  nth_error (f_params fd) i = Some (x, None) ->
+  infer_fun D fuel fd = Inferred k P r ->
+  nth_error P i = Some a ->
+  infer_fun D fuel' (annotate fd i a) <> OutOfFuel ->
+  infer_fun D fuel' (annotate fd i a) = Inferred k P r.
+Proof.
+  intros fd i x a fuel fuel' k P r OK Ba E INF EP NF.
+  pose proof (fun_ok_annotate fd i x a E Ba OK) as OK'.
+  assert (HP : has_fun D fd P r).
+  { pose proof (infer_sound D fuel fd k P r OK INF TVar) as HS.
+    rewrite (map_ext _ (fun t => t) app_id), map_id, app_id in HS. exact HS. }
+  pose proof (has_fun_annotate fd i x a P r E EP HP) as HP'.
+  destruct (infer_fun D fuel' (annotate fd i a)) as [k' P' r'| |] eqn:INF'.
+  - (* both schemes are principal, hence instances of each other; both are canonically numbered *)
+    destruct (infer_principal D DOK _ _ _ _ _ OK' INF' P r HP') as (r1 & EP1 & ER1).
+    assert (HQ : has_fun D fd P' r').
+    { apply (has_fun_erase fd i x a P' r' E).
+      pose proof (infer_sound D fuel' _ k' P' r' OK' INF' TVar) as HS.
+      rewrite (map_ext _ (fun t => t) app_id), map_id, app_id in HS. exact HS. }
+    destruct (infer_principal D DOK _ _ _ _ _ OK INF P' r' HQ) as (r2 & EP2 & ER2).
+    pose proof (numbering_canonical D _ _ _ _ _ INF) as C.
+    pose proof (numbering_canonical D _ _ _ _ _ INF') as C'.
+    assert (EQ : P ++ [r] = P' ++ [r']).
+    { apply (mutual_instance_canonical _ _ k k' r1 r2); auto.
+      - rewrite map_app. cbn. congruence.
+      - rewrite map_app. cbn. congruence. }
+    apply app_inj_tail in EQ. destruct EQ as (-> & ->).
+    assert (k' = k).
+    { apply (f_equal (@length nat)) in C. apply (f_equal (@length nat)) in C'. rewrite seq_length in *. congruence. }
+    subst. reflexivity.
+  - exfalso. exact (infer_complete D DOK fuel' _ P r OK' HP' INF').
+  - congruence.
+Qed.
+
+End Erasure.
+
+(* ------------------------------------------------------------------ independence of instances *)
+Lemma occurs_shift n t v : occurs v (shift n t) = true -> exists x, v = n + x /\ occurs x t = true.
+Proof. induction t as [y|a|l IHl r IHr]; cbn; intros O; try discriminate.
+  - apply Nat.eqb_eq in O. exists y. split; [exact O|apply Nat.eqb_refl].
+  - apply orb_true_iff in O. destruct O as [O|O]; [destruct (IHl O) as (x & -> & Ox)|destruct (IHr O) as (x & -> & Ox)];
+      exists x; rewrite Ox; auto using orb_true_r. Qed.
+
+Section Instances.
+Variable D : decls.
+Hypothesis DOK : decls_ok D.
+
+Lemma gen_args_counter ge args : (Forall (fun a => forall n t es n', ge a n = Some (t, es, n') -> n <= n') args) ->
+  forall n ts es n', gen_args ge args n = Some (ts, es, n') -> n <= n'.
+Proof. intros F; induction F as [|a r Ha _ IH]; intros n ts es n' H; cbn in H.
+  - injection H as _ _ <-; lia.
+  - destruct (ge a n) as [[[ta ea] n1]|] eqn:Ga; try discriminate.
+    destruct (gen_args ge r n1) as [[[ts0 er] n2]|] eqn:R; try discriminate.
+    injection H as _ _ <-. specialize (Ha _ _ _ _ Ga). specialize (IH _ _ _ _ R). lia. Qed.
+
+(** the fresh-variable counter only grows *)
+Lemma gen_counter : forall e G n t es n', gen D G e n = Some (t, es, n') -> n <= n'.
+Proof.
+  induction e as [x|l|p args IH|f args IH|x a b IHa IHb|xs a b IHa IHb|xs b IHb] using exp_ind2;
+    intros G n t es n' H; cbn [gen] in H.
+  - destruct (lookup x G); inversion H; lia.
+  - inversion H; lia.
+  - destruct (prim_scheme D p) as [s|]; try discriminate.
+    destruct (arity_ok _ _ _); try discriminate.
+    destruct (gen_args (gen D G) args (n + sk s)) as [[[tas eas] n1]|] eqn:GA; try discriminate.
+    injection H as _ _ <-. enough (n + sk s <= n1) by lia.
+    eapply gen_args_counter; [|exact GA]. eapply Forall_impl; [|exact IH]. intros a Ha; apply Ha.
+  - destruct (lookup f G); try discriminate.
+    destruct (gen_args (gen D G) args n) as [[[tas eas] n1]|] eqn:GA; try discriminate.
+    injection H as _ _ <-. enough (n <= n1) by lia.
+    eapply gen_args_counter; [|exact GA]. eapply Forall_impl; [|exact IH]. intros a Ha; apply Ha.
+  - destruct (gen D G a n) as [[[ta ea] n1]|] eqn:Ga; try discriminate.
+    destruct (gen D ((x,ta)::G) b n1) as [[[tb eb] n2]|] eqn:Gb; try discriminate. injection H as _ _ <-.
+    specialize (IHa _ _ _ _ _ Ga). specialize (IHb _ _ _ _ _ Gb). lia.
+  - destruct (gen D G a n) as [[[ta ea] n1]|] eqn:Ga; try discriminate.
+    destruct (gen D _ b (n1 + length xs)) as [[[tb eb] n2]|] eqn:Gb; try discriminate. injection H as _ _ <-.
+    specialize (IHa _ _ _ _ _ Ga). specialize (IHb _ _ _ _ _ Gb). lia.
+  - destruct (gen D _ b (n + length xs)) as [[[tb eb] n1]|] eqn:Gb; try discriminate. injection H as _ _ <-.
+    specialize (IHb _ _ _ _ _ Gb). lia.
+Qed.
+
+(** Every reference to a primitive / global of scheme [s] at counter [n] uses the instance
+    [shift n]: its variables are n .. n+sk-1, all below the counter the reference returns.
+    Hence two references (the later one starts at a counter >= the one the earlier returned)
+    are instantiated with disjoint variables: unifying one never constrains the other. *)
+Theorem instances_independent : forall p s G1 args1 n1 t1 es1 n1' G2 args2 n2 t2 es2 n2',
+  prim_scheme D p = Some s ->
+  gen D G1 (XPrim p args1) n1 = Some (t1, es1, n1') ->
+  gen D G2 (XPrim p args2) n2 = Some (t2, es2, n2') ->
+  n1' <= n2 ->
+  forall u1 u2 v, In u1 (sres s :: sargs s) -> In u2 (sres s :: sargs s) ->
+    occurs v (shift n1 u1) = true -> occurs v (shift n2 u2) = true -> False.
+Proof.
+  intros p s G1 args1 n1 t1 es1 n1' G2 args2 n2 t2 es2 n2' PS H1 H2 L u1 u2 v I1 I2 O1 O2.
+  pose proof (prim_scheme_ok _ _ _ DOK PS) as (SA & SR).
+  assert (BU : forall u, In u (sres s :: sargs s) -> below (sk s) u).
+  { intros u [<-|I]; auto. rewrite Forall_forall in SA; auto. }
+  cbn [gen] in H1. rewrite PS in H1.
+  destruct (arity_ok _ _ _); try discriminate.
+  destruct (gen_args (gen D G1) args1 (n1 + sk s)) as [[[tas eas] m1]|] eqn:GA; try discriminate.
+  injection H1 as _ _ <-.
+  assert (n1 + sk s <= m1).
+  { eapply gen_args_counter; [|exact GA]. apply Forall_forall. intros a _ n t es n' Hg. eapply gen_counter; eauto. }
+  destruct (occurs_shift _ _ _ O1) as (x1 & -> & Ox1). destruct (occurs_shift _ _ _ O2) as (x2 & E & Ox2).
+  pose proof (below_occurs _ _ _ (BU _ I1) Ox1). lia.
+Qed.
+
+End Instances.
